@@ -65,6 +65,8 @@ const noTimerDelay = 100000 // seconds: the timer never fires within a run
 
 var keyPool = [][]byte{
 	[]byte("a"), []byte("b"), []byte("c"), []byte("d"), []byte("aa"), []byte("ba"), {0x00}, {0x01, 0x00}, {0xff}, {0x10, 0x03}, []byte("key-e"),
+	{}, // the empty key: legal for goleveldb, the memory map and the shard router
+	[]byte("0123456789abcdef0123456789abcdef"), // a hash-sized key
 }
 
 var otherValues = [][]byte{{0xab, 0xcd}, {0, 0, 0}, []byte("hello"), {0xff, 0x00, 0xff, 0x00}}
